@@ -26,6 +26,55 @@ CHECKS["C18"] = ("inproc",
   "Generated-input search over ~0.85M (quick) inputs: every short string over a 27-symbol alphabet through the literal parser, adversarial long/Unicode/huge-number literals through Display/Debug expansions at every attribute level, documented attribute templates mutated at token-tree level plus random token streams on container/variant/field positions for every attribute-taking derive, and unit/tuple/named/enum/union shapes with exotic field types x all 50 derives. Outcome must be Ok, Err or a panic raised at an explicit panic!/assert! line; worker crashes (stack exhaustion) and super-cubic time on four scaling families are violations. Each distinct failing call site is minimised by token-tree deletion.",
   "deliberate-vs-internal panic is decided by reading the source line of the panic location in the tree under test; nesting bounded at 64",
   "DESIGN.md section 5 C18")
+
+def _c(pid, eng, tech, text, note):
+    CHECKS[pid] = (eng, tech, text, note, "DESIGN.md section 5 " + pid)
+
+_c("C01", "proggen",
+   "generated-program compile testing: dice-driven proptest generator of derive inputs (all 50 derives x shapes x generics x attributes x decorations) compiled by the real proc-macro; rustc is the oracle; control rendering without derive_more separates generator faults",
+   "Generated-input search: ~2.1k (quick) to ~48k (thorough) distinct type definitions per seed over the supported shape space (unit/tuple/named structs, enums mixing variant kinds, unions; 0..2 lifetimes, 0..2 type parameters with inline bounds/defaults, const parameters incl. unused/defaulted, where-clauses, consts before types; raw identifiers; documented attributes; #[deprecated] fields/variants, uninhabited fields) with field types that implement every trait a derive may require. Each must be accepted by `cargo check` and raise no warning that its derive-free control rendering does not raise as well. Exploration only.",
+   "the per-derive support table (what the docs promise) is transcribed by hand (DESIGN Appendix A); three language-level coherence/orphan limits are excluded by construction and documented in DESIGN section 8")
+_c("C04", "proggen",
+   "generated generic fmt-derive programs with planned parameter roles; trait-implementation probing (inherent-const trick) on NoFmt / Only<Trait> instantiations decides sufficiency and non-excess of the inferred bounds",
+   "Generated-input search: ~1.9k (quick) to ~39k (thorough) generic structs/enums deriving Display-like traits or Debug; each type parameter is planned as formatted under one trait, unformatted, or user-bounded; the program must compile without further bounds (sufficiency), the impl must exist with unformatted parameters instantiated by a type implementing no fmt trait and formatted ones by a type implementing only their trait (non-excess, wrong-trait detection), and must not exist when a `bound(..)` predicate is violated. Exploration only.",
+   "bounds are observed behaviourally through trait resolution, not through the expansion's tokens; one recorded finding (reference-typed field bound shadows std's blanket impl) is matched by its defect model")
+_c("C07", "proggen+inproc",
+   "differential testing of generated enums against the documented wrapping/default rule computed with plain format! inside the program; negative compile shards plus an exhaustive in-process screen of the `_variant` spec grid",
+   "Generated-input search: thousands of generated enums deriving each of the eight Display-like traits (all variant shapes, own attributes present or absent, rename_all, enum-level literals mentioning `_variant` 0-3 times as placeholder, positional argument or alias, mixed with text and common fields); every variant's output must be byte-equal to the rule's prediction; `_variant` with any specifier or non-Display type and any enum-level format on Debug must be rejected (fixed table x 3 mention forms, random multi-modifier specs, ~50k-200k spec-grid items in-process). Exploration; exhaustive only over the named spec grid on one enum shape.",
+   "trusts format! of the installed toolchain; rename_all oracle only for [A-Z][a-z]+ words")
+_c("C08", "proggen",
+   "generated programs over logged conversion helper types: value/address/write-through comparisons, round trips, conversion-count logs; impl presence and absence decided at run time by an inherent-const-vs-blanket-trait probe against a model of from.md/into.md/constructor.md",
+   "Generated-input search: 2.3k (quick) / 28k (thorough) structs and enums deriving From/Into/Constructor over all documented attribute placements; components must land in declaration order, ref/ref_mut forms must alias the very fields, round trips must be the identity, exactly one logged From::from per converted field, and the set of impls must equal the documented one (10-30 probed (T,U) pairs per case incl. near misses); wrong-arity type lists and derives on unsupported kinds must be rejected. Exploration only.",
+   "no generic parameters on the derived types; negative cases accept any rustc rejection")
+_c("C10", "proggen",
+   "symbolic differential testing: field types form a free term algebra recording (operator, lhs, rhs), so one evaluation per generated case decides all operand values; expected terms are built by hand inside the program",
+   "Generated-input search: ~2k (quick) / ~16k (thorough) structs and enums deriving each of the 24 operator derives (scalar and forward Mul family, assign forms, Not/Neg, Sum/Product with derived or hand-written companions); field i must equal op(L i, R i) / op(L i, K) / un(L i); a op= b equals a op b; sums equal the left fold from the field-wise Zero/One; every ordered pair of enum variants gives Ok / Mismatch / Unit with the documented messages; enum forms documented as unsupported must be rejected. Exploration only.",
+   "trusts std #[derive(Debug)] renderings for term comparison; field types are always the helper algebra types")
+_c("C11", "proggen+inproc",
+   "generated enums with the full (value per variant) x (accessor) table evaluated inside the program: values for owned forms, addresses for ref/mut forms, caught panics, error.input identity; colliding user items probe accessors that must be absent",
+   "Generated-input search: 800 (quick) / ~9.6k (thorough) enums per seed over unit/tuple/named variants, shared field-type tuples, ignore on variants and fields, owned/ref/ref_mut selections, generics, multi-word and raw-identifier names; every (value, accessor) pair is executed: is_x partition, unwrap/try_unwrap payload identity and panics/errors carrying the unchanged input, TryFrom success exactly for the matching variants. Exploration only.",
+   "existence of accessors is asserted only where the docs are unambiguous (no attribute, enum-level lists, ignore, pure opt-in); elsewhere the accessor set is read from the in-process expansion and everything found is checked")
+_c("C13", "proggen",
+   "model-based testing of generated FromStr enums and newtypes against a reference implementation of the documented matching rule / the inner type's own FromStr over string sets enumerated inside the program (bounded exhaustive, case patterns, one-edit neighbours, seeded random)",
+   "Generated-input search: ~1000 enums (about 14k strings each: all strings up to a length bound over each name's letters in both cases plus separators, every case pattern, one-edit neighbours, prefixes/suffixes/concatenations, random multi-byte strings) and ~450 newtypes over 14 inner types incl. generic forms and a custom error per quick run; results, error types and texts must agree with the reference, own names must round-trip. Exploration; exhaustive only inside the stated per-name length bounds.",
+   "ASCII variant names; characters whose lowercase is an ASCII letter excluded so that 'ignoring case' is unambiguous")
+_c("C14", "proggen+inproc",
+   "generated structs with equal-typed neighbouring fields whose field types answer their own AsRef/Deref/Index/IntoIterator from a second allocation, so pointer/size identity separates the field's own storage from the field's impl result; write-through and three-form iteration comparisons",
+   "Generated-input search: ~890 (quick) / ~10k (thorough) structs per seed over all seven delegating derives, selection by marker / ignore-the-others / forward / type lists (incl. the field's own type through an alias or another path), owned/ref/ref_mut iteration: addresses, sizes, element order and write visibility must match the selected field (or exactly what the field's own impl returns when forwarding). Exploration only.",
+   "selection styles limited to the documented ones; only `T` as generic parameter")
+_c("C15", "proggen",
+   "metamorphic testing: every generated item (C01 generator, all 50 derives) and 22 behaviour templates are compiled twice, in a friendly module and in a #[no_implicit_prelude] module with one of 7 shadow sets (types, fns/consts, traits, compile_error-macros, silently capturing macros, glob-imported variants); user tokens are rewritten to absolute paths, so only expansion tokens can depend on the scope",
+   "Generated-input search: ~1.2k (quick) / ~40k (thorough) friendly/hostile pairs; the hostile copy must compile whenever the friendly one does, and the drivers' observation strings (formatting results, panic messages, error texts, sources, parses, conversions) must be identical in both scopes; every behaviour template runs under every shadow set in every quick run. Exploration only.",
+   "the token-level absolutising rewrite of user tokens is trusted; a friendly copy that does not compile is counted as generator reject (C01's business)")
+_c("C17", "inproc+proggen",
+   "grammar-model-based generation with metamorphic rewrites and single-step corruptions of derive attribute sets; in-process expansions compared by token equality modulo top-level item order; a per-cell sample cross-checked through the real proc-macro and rustc",
+   "Generated-input search: 377 (derive, position, kind) cells x 100 (quick) to 2000 (thorough) seeded cases for the 34 attribute-taking derives: skip/ignore, bound/bounds, n types vs n attributes, trailing comma and attribute permutation must expand token-equal; unknown identifiers, duplicated literal/rename_all/repr, arguments on the wrong item kind, legacy `fmt =`/`bound =`/`types(..)`, X + not(X) and ignore + selector must yield a diagnostic whenever the uncorrupted item is accepted; 2-4 cases per cell are compiled (positive pairs print identical probes, negatives are rejected by the derive; attribute registration in lib.rs covered). Exploration only.",
+   "the attribute language per position is transcribed from impl/doc/*.md; undocumented positions and docs-silent duplications are not asserted")
+_c("C19", "inproc",
+   "repeated-expansion and fresh-process differential testing of in-process expansions on generated inputs biased to hashed-collection iteration; thorough tier adds separate rustc processes with the real proc-macro (-Zunpretty=expanded)",
+   "Generated-input search: 3k (quick) / 40k (thorough) derive inputs (TryInto/FromStr/Mul-like/Error biased, plus shape x derive sampling) are expanded twice in one process, in a seeded permutation of the order, and in 8 (quick) / 48 (thorough) fresh processes (per-process hash seeds, alternating forward/reverse order); token texts must be identical. Exploration only.",
+   "in-process expansion calls the same expand functions as the proc-macro entry points; std RandomState differs per process")
+
 NOT_YET = {}
 
 def main():
